@@ -287,23 +287,18 @@ func (c TypingCase) source() string {
 	if c.ElSpelling == "tail-upper" {
 		el = el[:1] + strings.ToUpper(el[1:])
 	}
-	var expr string
-	switch c.ExprType {
-	case "string":
-		expr = "s"
-	case "string-call":
-		expr = "ident(s)"
-	case "named-string":
-		expr = "myStr(s)"
-	case "string-concat":
-		expr = `"/x/" + s`
-	case "safeurl":
-		expr = "templ.SafeURL(s)"
-	case "url-call":
-		expr = "templ.URL(s)"
-	case "safeurl-var":
-		expr = "u"
+	if c.ElSpelling == "first-upper" || c.ElSpelling == "all-upper" {
+		// <A href=...> / <FORM action=...>: a tag to every browser. templ's element names start
+		// with a lower-case letter, so it should refuse such a file; written without an end tag
+		// (browsers imply it) and inside another element.
+		name := strings.ToUpper(el[:1]) + el[1:]
+		if c.ElSpelling == "all-upper" {
+			name = strings.ToUpper(el)
+		}
+		a := spell(map[bool]string{true: "action", false: "href"}[c.Element == "form"], c.Spelling) + "={ " + exprOf(c.ExprType) + " }"
+		return "package p\n\ntype myStr string\n\nfunc ident(s string) string { return s }\n\ntempl T(s string, u templ.SafeURL, b bool, attrs templ.Attributes) {\n\t<ul><li><" + name + " " + a + ">click here</li></ul>\n}\n"
 	}
+	expr := exprOf(c.ExprType)
 	a := attr + "={ " + expr + " }"
 	var body string
 	switch c.Position {
@@ -327,6 +322,24 @@ func (c TypingCase) source() string {
 	return "package p\n\ntype myStr string\n\nfunc ident(s string) string { return s }\n\ntempl T(s string, u templ.SafeURL, b bool, attrs templ.Attributes) {\n\t" + body + "\n}\n"
 }
 
+func exprOf(exprType string) string {
+	switch exprType {
+	case "string":
+		return "s"
+	case "string-call":
+		return "ident(s)"
+	case "named-string":
+		return "myStr(s)"
+	case "string-concat":
+		return `"/x/" + s`
+	case "safeurl":
+		return "templ.SafeURL(s)"
+	case "url-call":
+		return "templ.URL(s)"
+	}
+	return "u"
+}
+
 func (c TypingCase) safe() bool {
 	return c.ExprType == "safeurl" || c.ExprType == "url-call" || c.ExprType == "safeurl-var"
 }
@@ -335,7 +348,16 @@ func decideTyping(c TypingCase) error {
 	src := c.source()
 	g, stage, err := tc.Generate(src, "t.templ")
 	if err != nil {
+		if c.ElSpelling == "first-upper" || c.ElSpelling == "all-upper" {
+			return nil // templ refuses the file: nothing reaches a browser
+		}
 		return fmt.Errorf("harness: fixture does not generate (%s): %v\n%s", stage, err, src)
+	}
+	if c.ElSpelling == "first-upper" || c.ElSpelling == "all-upper" {
+		// accepted: then the tag the browser will see must be under the same typing rule
+		if !strings.Contains(g.Go, "templ.SafeURL") {
+			return fmt.Errorf("a file with <%s ...> written in upper case is accepted, and its %s is filled without the safe-URL type:\n%s", strings.ToUpper(c.Element), map[bool]string{true: "action", false: "href"}[c.Element == "form"], src)
+		}
 	}
 	errs := tc.TypeCheck(map[string]string{"t_templ.go": g.Go})
 	if tc.ImportProblem(errs) {
@@ -363,13 +385,19 @@ func TestPropTyping(t *testing.T) {
 	for _, el := range []string{"a", "form"} {
 		for _, pos := range []string{"plain", "with-others", "cond-then", "cond-else", "multiline", "after-spread", "nested", "in-loop"} {
 			for _, et := range []string{"string", "string-call", "named-string", "string-concat", "safeurl", "url-call", "safeurl-var"} {
-				for _, sp := range []string{"", "upper", "title", "alternating", "el-tail-upper"} {
+				for _, sp := range []string{"", "upper", "title", "alternating", "el-tail-upper", "el-first-upper", "el-all-upper"} {
 					c := TypingCase{Element: el, Position: pos, ExprType: et, Spelling: sp}
 					if sp == "el-tail-upper" {
 						if el == "a" {
 							continue
 						}
 						c.Spelling, c.ElSpelling = "", "tail-upper"
+					}
+					if sp == "el-first-upper" || sp == "el-all-upper" {
+						if pos != "plain" {
+							continue // one position: the element name decides here
+						}
+						c.Spelling, c.ElSpelling = "", strings.TrimPrefix(sp, "el-")
 					}
 					n++
 					recTy.Eval(1)
